@@ -21,13 +21,15 @@ MANIFEST = dict(
          "be clamped on both sides; the output longitude is a positive-offset modulo 2pi (range [0,360)); a result rotate() returns only under a "
          "guard on the Euler angles (a shortcut) is compared with the zxz rotation on the solution set of the guard (a tolerance test |g| < eps "
          "stands for g = 0; the solution families are substituted into both and the directions compared as terms; a difference is reported "
-         "with a point of the guard's solution set that refutes the identity); (3) the six wrappers map to "
+         "with a point of the guard's solution set that refutes the identity); a result euler() returns only for positions its guard pins to "
+         "isolated coordinate values is compared in the same way with the rotation of those positions as unit vectors (the longitude is free only "
+         "where the guard confines the OUTPUT latitude to +-90); (3) the six wrappers map to "
          "selectors 1..6 and forward epoch and dtype, and each wrapper evaluated to terms for either epoch uses the rotation constants of its own "
          "selector in that epoch; (4) unit-vector conversions and their range fold carry the units of the chosen "
          "option; SDSS node/pole constants and formulas; range checks raise; (5) longitude shifting: the evaluated result of shiftlon for a "
          "negative / non-negative / absent shift is split into guarded cases and each case is shown by interval reasoning to lie in the "
          "documented interval (open at 360) and to differ from lon - shift by whole turns (a result dispatched on the value of the shift is decided "
-         "per alternative for the shifts that reach it, zero included); the range-fold loops are checked by one symbolic step; the pair fold "
+         "per alternative for the shifts that reach it, zero included); shiftra's call of shiftlon is bound through shiftlon's signature and each option must reach the parameter of its own meaning; the range-fold loops are checked by one symbolic step; the pair fold "
          "behind sdss2eq, specialised to latitudes in [-90,90] by interval reasoning, keeps the latitude and changes the longitude by whole turns "
          "only, except for latitudes its guards confine to the poles (solution set of the guards computed, within 1e-9 degree on the sky).",
     note="Not decided: 1e-5 / 1e-9 degree tolerances, isometry numerically; B1950 ecliptic<->galactic constants are not documented in "
